@@ -89,6 +89,8 @@ pub fn name_menu() -> Vec<String> {
         format!("{}.local.", l63()),
         "c.b.a.local.".into(),
         "A.local.".into(),
+        // [a\][b][local]: renders like the dotted single label [a.b] under a naive re-escaping
+        "a\\\\.b.local.".into(),
     ]
 }
 
@@ -114,6 +116,8 @@ pub fn entry_menu() -> Vec<Entry> {
     v.push(Entry::An(ptr(&nm[3], &nm[8], ttl())));
     v.push(Entry::Ar(ptr(&nm[0], &nm[5], ttl())));
     v.push(Entry::An(ptr(&nm[7], &nm[6], ttl())));
+    v.push(Entry::An(ptr(&nm[10], &nm[3], ttl())));
+    v.push(Entry::Q(nm[10].clone(), 33));
     // SRV
     let srv = |o: &str, h: &str, ttl: u32| {
         wire::Rec::new(
